@@ -186,6 +186,7 @@ func (c *Ctx) ord4() {
 	dupe := c.acc("ORD-4", onPub, "duplicate⇒PUBREC-written,not-delivered")
 	nowire := c.acc("ORD-4", onPub, "no-wire-write-for-a-new-message")
 	qos0 := c.acc("ORD-4", onPub, "QoS0⇒no-ack")
+	noack := c.acc("ORD-4", onPub, "error-return⇒no-ack-left-queued")
 	isDup := func(p *pathx.Path, upto int) (dup bool, loadIdx int) {
 		loadIdx = -1
 		for i := 0; i < upto; i++ {
@@ -286,6 +287,23 @@ func (c *Ctx) ord4() {
 			}
 			continue
 		}
+		// an error return must not leave an acknowledgement queued, except
+		// for the PUBREC of a duplicate whose write just failed (retried)
+		if len(stores) > 0 && stores[len(stores)-1].kind != "truncate" {
+			failedWrite := false
+			for _, w := range wires {
+				if n, k := nilResult(p, w, last); k && !n {
+					failedWrite = true
+				}
+			}
+			if failedWrite && dup {
+				noack.pass()
+			} else {
+				noack.fail(p, last, "onPUBLISH returns an error while an acknowledgement stays queued: the next ReadSlices confirms a message that was never handed to the application, and the broker will not send it again")
+			}
+		} else {
+			noack.pass()
+		}
 		if dup {
 			// duplicate: must be answered, never delivered
 			if len(wires) == 0 {
@@ -324,6 +342,7 @@ func (c *Ctx) ord4() {
 	dupe.done(1, "every recognised duplicate leads to a PUBREC write and is not delivered")
 	nowire.done(1, "no wire write on any delivering path")
 	qos0.done(1, "no acknowledgement for QoS 0")
+	noack.done(3, "no error return leaves pendingAck filled, except the retried PUBREC of a duplicate")
 
 	// --- handlers keep the loop invariant: pendingAck empty when the read loop continues ---
 	inv := c.acc("ORD-4", rs, "loop-continues⇒pendingAck-empty(handler-summaries)")
